@@ -125,6 +125,11 @@ def family_C04():
          ('operator through an identifier', 'h := -; x h y', 'x - y', base), ('partial application by one argument', F2 + 'g(y)(x)', F2 + 'g(x, y)', base) if False else ('identity wrapper', F2 + '(\\p, q -> p g q)(x, y)', F2 + 'g(x, y)', base),
          ('operator assignment', 'a := x; a -= y; a', 'x - y', base), ('operator assignment reading the target', 'a := x; a -= a * y; a', 'x - x * y', base),
          ('operator assignment with a function', F2 + 'a := x; a g= y; a', F2 + 'g(x, y)', base)]
+    # left / right sections of a user function applied through the one-argument routes (reverse application, composition)
+    th = dict(base, registered=('then', '>>>'))
+    P += [('left section through then', F2 + 'h := (x g); y then h', F2 + 'g(x, y)', th), ('right section through then', F2 + 'h := (_ g y); x then h', F2 + 'g(x, y)', th),
+          ('left section of a call through then', F2 + 'h := g(x, _); y then h', F2 + 'g(x, y)', th),
+          ('left section composed', F2 + 'h := (x g) >>> (\\r -> [r]); h(y)', F2 + '[g(x, y)]', th)]
     return P
 def family_C17():
     base = {}
@@ -253,6 +258,7 @@ def family_C05():
     mk('splat then default', 'f := \\...a, b = 9 -> [len(a), b]; [f(), f(x), f(x, y), f(x, y, z)]', '[[0, 9], [0, x], [1, y], [2, z]]')
     mk('argument, splat, default', 'f := \\p, ...a, b = 9 -> [p, len(a), b]; [f(x), f(x, y), f(x, y, z)]', '[[x, 0, 9], [x, 0, y], [x, 1, z]]')
     mk('splat then two defaults', 'f := \\...a, b = 8, c = 9 -> [len(a), b, c]; [f(), f(x), f(x, y), f(x, y, z)]', '[[0, 8, 9], [0, x, 9], [0, x, y], [1, y, z]]')
+    mk('a single-operator chain evaluates the operator before the right operand', 'f := +; x f (f = *; y)', 'x + y')
     mk('lambda splat collects the rest', 'f := \\p, ...a -> [p, a]; [f(x), f(x, y, z)]', '[[x, []], [x, [y, z]]]')
     return P
 def family_C09():
